@@ -583,7 +583,7 @@ func c08RunTrace(c *c08Case) []Failure {
 		for _, n := range wantPush {
 			nwant += n
 		}
-		for i := 0; i < 100; i++ { // push callbacks run in their receiver goroutines: up to 2 s
+		for i := 0; i < 500; i++ { // push callbacks run in their receiver goroutines: up to 10 s
 			log.mu.Lock()
 			got := 0
 			for _, e := range log.ev {
@@ -938,7 +938,27 @@ func c08Coq(c *c08Case) string {
 		return fmt.Sprintf("KMt ((%d)%%Z, %s, (%d)%%Z)", c.Start, c08Zs(c.IDs), c.Final)
 	}
 	nad, ls, outs, snaps := c08Labels(c)
-	return fmt.Sprintf("KTrace (%d%%nat, %s, %s, %s, %s)", nad, ls, outs, snaps, c08Zs(c.Pending))
+	// connections whose adapter has a push callback (those of proxy 0's callers) and what the callback saw
+	var pads, pushes []string
+	if c.Push {
+		nprox := c.Proxies
+		if nprox < 1 {
+			nprox = 1
+		}
+		seen := map[int]bool{}
+		for k, ci := range c.ConnOf {
+			if k%nprox == 0 && ci >= 0 && ci < c.NConn && !seen[ci] {
+				seen[ci] = true
+				pads = append(pads, fmt.Sprintf("%d%%nat", ci))
+			}
+		}
+		for _, e := range c.Events {
+			if e.Kind == "push" {
+				pushes = append(pushes, fmt.Sprintf("%d%%N", e.Pay))
+			}
+		}
+	}
+	return fmt.Sprintf("KTrace (%d%%nat, %s, %s, %s, %s, ([%s], [%s]))", nad, ls, outs, snaps, c08Zs(c.Pending), strings.Join(pads, "; "), strings.Join(pushes, "; "))
 }
 
 func c08Gen(tier string, rng *rand.Rand) []c08Case {
@@ -996,7 +1016,7 @@ func c08Gen(tier string, rng *rand.Rand) []c08Case {
 		cs = append(cs, c08Case{Kind: "wrap", Start: 1, Spin: int64(1)<<31 - 3, Class: "wrap/full-cycle"})
 	}
 	// scripted-server scenarios
-	sizes := []int{1, 1, 1, 4, 4, 4, 4, 4, 32, 32, 32, 256, 256}
+	sizes := []int{1, 1, 1, 4, 4, 4, 4, 4, 32, 32, 32, 256, 256, 2, 8, 16, 64, 4, 32, 128, 2, 16}
 	if tier == "thorough" {
 		for i := 0; i < 24; i++ {
 			sizes = append(sizes, 1, 4, 4, 32, 32, 256, 8, 64, 128, 2, 16)
@@ -1086,7 +1106,7 @@ func init() {
 			ID: "C08", Require: "From TarsV Require Import Base.Hex Rpc.ReqId Conc.Pending Conc.C08Corr.", CaseType: "c08_case",
 			Mismatch: "failing_from c08_check",
 			Corr:     "C08Corr.c08_check (gen_seq = real genRequestID from a set counter; concurrent batches within the theorems' conclusions; maccepts = the recorded trace, per connection, is a good run of the product of pending-table machines with the observed outcomes, table snapshots and empty tables at the end; wrap witness = the theorem's prediction)",
-			Rule:     "genRequestID: counter set to 0/maxInt32/minInt32 +-4, 2^30, random, then 1-7 calls single-threaded (exact vs gen_seq); 2-32 threads x 4-33 calls straddling 0, maxInt32, minInt32 (non-zero, distinct, reachable window, in Coq); 4-32 threads x 20000-40000 calls (monitor: non-zero, distinct, no lost increment). Scripted raw TCP server: N in {1,4,32,256} (thorough: also 2,8,16,64,128) concurrent callers spread over 1-2 ServantProxy objects (own adapter and connection each), 1-3 rounds on the same connections, per caller one of reply / three replies / no reply / reply after the caller left / forged id 0 / forged unknown ids / one-way typed packet with the right id / id of a completed call / right id on another connection; server handling order a random permutation per round; request ids positioned to cross 0, the wrap threshold, or be negative; GOMAXPROCS 1,2,4,16 in thorough; table snapshot while the round is outstanding. Thorough: full-cycle wrap witness (2^31 allocations). class = (kind, counter zone, threads | N, rounds, proxies, GOMAXPROCS, id zone, set of acts)",
+			Rule:     "genRequestID: counter set to 0/maxInt32/minInt32 +-4, 2^30, random, then 1-7 calls single-threaded (exact vs gen_seq); 2-32 threads x 4-33 calls straddling 0, maxInt32, minInt32 (non-zero, distinct, reachable window, in Coq); 4-32 threads x 20000-40000 calls (monitor: non-zero, distinct, no lost increment). Scripted raw TCP server: N in {1,2,4,8,16,32,64,128,256} concurrent callers spread over 1-2 ServantProxy objects (own adapter and connection each), 1-3 rounds on the same connections, per caller one of reply / three replies / no reply / reply after the caller left / forged id 0 / forged unknown ids / one-way typed packet with the right id / id of a completed call / right id on another connection; server handling order a random permutation per round; request ids positioned to cross 0, the wrap threshold, or be negative; GOMAXPROCS 1,2,4,16 in thorough; table snapshot while the round is outstanding. Thorough: full-cycle wrap witness (2^31 allocations). class = (kind, counter zone, threads | N, rounds, proxies, GOMAXPROCS, id zone, set of acts)",
 			Shard:    8,
 			Workers:  1,
 			Gen:      c08Gen,
